@@ -250,21 +250,6 @@ func init() {
 	externals["sort.SliceStable"] = extSortSlice
 }
 
-// package flag: registration returns a fresh cell holding the default value;
-// parsing is not modelled (the CLI harness sets the cells itself).
-func init() {
-	cell := func(fr *frame, args []value) value {
-		v := args[1]
-		return &v
-	}
-	externals["flag.Int"] = cell
-	externals["flag.Bool"] = cell
-	externals["flag.String"] = cell
-	externals["flag.Var"] = extNop
-	externals["flag.Parse"] = extNop
-	externals["flag.Args"] = func(fr *frame, args []value) value { return []value(nil) }
-}
-
 // File system and MIME table stubs for the CLI harness: extensions map to the
 // media types of Go's built-in table; os.Open always fails with ErrNotExist (the
 // harness only observes how far the command got).
